@@ -1,4 +1,151 @@
-(* C17 - placeholder while the proofs are being written *)
-From Verif Require Import Base.Prelude Enc.CborDec.
-Theorem C17_placeholder : True. Proof. exact I. Qed.
-Print Assumptions C17_placeholder.
+(* C17 - The CBOR decoder is total: errors not crashes; truncation costs only
+   the last event.  Statements only; proofs are [exact <lemma>] from
+   Proofs/CborDecP.v (and Proofs/Cbor2JsonP.v for the link to the encoder).
+
+   The model (Enc/CborDec.v) is decode_stream.go as it is after the fix
+   commits: [cbor2json Orc bs] is what a caller of Cbor2JsonManyObjects
+   observes on input [bs]: (bytes written to dst, nil / error class /
+   re-raised runtime panic / model out of fuel, allocation meter).
+
+   Quantification.  All theorems hold for EVERY byte string [bs] (any list of
+   numbers, bytes or not) that fits in memory ([lenZ bs < 2^60]: Go's int
+   arithmetic on lengths is modelled with wrap-around, and a slice cannot be
+   longer) and, except for the allocation bound, for EVERY oracle, i.e.
+   whatever text strconv / time return, even none.  The allocation bound
+   assumes the answers are at most 64 / 400 / 64 bytes long (float32 /
+   float64 / timestamp; measured on every answer the harness ships: 48 / 326 /
+   38).  That Go's strconv.AppendFloat, time.Unix, Time.AppendFormat and
+   net.IP.String themselves return (do not panic) is the assumption made by
+   modelling them as functions. *)
+From Verif Require Import Base.Prelude Base.CborSpec Enc.CborEnc Enc.CborDec Proofs.CborEncP Proofs.CborDecP Proofs.Cbor2JsonP.
+Open Scope Z_scope.
+
+(* termination: the fuel 2*len+2 always suffices; and no runtime panic:
+   the outcome is output + nil or output + error, for every input and oracle *)
+Theorem C17_total : forall Orc bs, fits_memory bs ->
+  match cbor2json Orc bs with
+  | (_, FOk, _) | (_, FErr _, _) => True
+  | (_, FRuntimePanic _, _) | (_, FOutOfFuel, _) => False
+  end.
+Proof. exact decoder_total. Qed.
+
+Theorem C17_fuel_sufficient : forall Orc bs, fits_memory bs ->
+  snd (fst (cbor2json Orc bs)) <> FOutOfFuel.
+Proof.
+  intros Orc bs H. pose proof (decoder_total Orc bs H) as T.
+  destruct (cbor2json Orc bs) as [[o f] a]. cbn. destruct f; try contradiction; discriminate.
+Qed.
+
+Theorem C17_no_runtime_panic : forall Orc bs, fits_memory bs ->
+  forall k, snd (fst (cbor2json Orc bs)) <> FRuntimePanic k.
+Proof.
+  intros Orc bs H k. pose proof (decoder_total Orc bs H) as T.
+  destruct (cbor2json Orc bs) as [[o f] a]. cbn. destruct f; try contradiction; discriminate.
+Qed.
+
+(* the meter (make sizes, bytes appended to slices, bytes written) is linear *)
+Theorem C17_alloc_linear : forall Orc bs, fits_memory bs -> oracle_bounded Orc ->
+  let '(_, _, a) := cbor2json Orc bs in Z.of_N a <= 256 * lenZ bs + 8192.
+Proof. exact decoder_alloc_linear. Qed.
+
+(* the other entry points: DecodeIfBinaryToBytes returns (no panic at all);
+   DecodeObjectToStr has no recover: malformed input makes it panic with the
+   decoder's error value, never with a runtime error *)
+Theorem C17_decodeIfBinary_returns : forall Orc bs, fits_memory bs ->
+  snd (decodeIfBinaryToBytes Orc bs) = FOk.
+Proof. exact decodeIfBinary_total. Qed.
+
+Theorem C17_decodeObject_no_runtime_panic : forall Orc bs, fits_memory bs ->
+  match snd (decodeObjectToStr Orc bs) with FRuntimePanic _ | FOutOfFuel => False | _ => True end.
+Proof. exact decodeObject_total. Qed.
+
+(* extension: whatever the decoder did on a prefix without hitting the end of
+   the input, it does on every extension (items are read strictly left to
+   right; the only look-ahead is one peeked byte) *)
+Theorem C17_extension : forall A (p : prog A) s tail, ext_res (run p s) (run p (ext_st s tail)) tail.
+Proof. exact @run_ext. Qed.
+
+(* prefix stability.  [decodes Orc e j]: the non-empty byte string e is one
+   top-level item that the decoder turns into the text j, consuming e exactly.
+   (Every event the encoder model produces from supported values is such an
+   item: Properties/C08 groundwork, Proofs/Cbor2JsonP.v event_decodes.) *)
+Theorem C17_stream_decodes : forall Orc es js, Forall2 (decodes Orc) es js -> fits_memory (concat es) ->
+  exists a, cbor2json Orc (concat es) = (lines js, FOk, a).
+Proof. exact stream_decodes. Qed.
+
+(* a cut inside event e = p ++ q: the events before it are decoded exactly as
+   in the full stream, then an end-of-input error is reported *)
+Theorem C17_prefix_stability : forall Orc es js e j p q,
+  Forall2 (decodes Orc) es js -> decodes Orc e j -> e = p ++ q -> p <> [] -> q <> [] ->
+  fits_memory (concat es ++ e) ->
+  exists part k a, cbor2json Orc (concat es ++ p) = (lines js ++ part, FErr k, a) /\ is_eof k = true.
+Proof. exact stream_torn. Qed.
+
+(* every cut point is one of the two cases *)
+Theorem C17_cut_points : forall es : list (list N), (forall e, In e es -> e <> []) ->
+  forall k, (k <= length (concat es))%nat ->
+  (exists n, firstn k (concat es) = concat (firstn n es)) \/
+  (exists es1 e es2 p q, es = es1 ++ e :: es2 /\ e = p ++ q /\ p <> [] /\ q <> [] /\
+                         firstn k (concat es) = concat es1 ++ p).
+Proof. exact cut_cases. Qed.
+
+(* the premise [decodes] holds of every event of the encoder model: for all
+   field lists of well-formed, memory-sized values (any nesting of Arr / Dict,
+   every primitive) for which the oracle has the float / time texts
+   ([json_fields kvs = Some j]; the j is the JSON object text).  Hence: a
+   stream written by the encoder decodes to one line per event, and any cut
+   decodes the whole events and then reports an end-of-input error. *)
+Theorem C17_encoder_events_decode : forall Orc f64_of_time f64_of_dur,
+  (forall s n, (f64_of_time s n < 2 ^ 64)%N) -> (forall d u, (f64_of_dur d u < 2 ^ 64)%N) ->
+  forall evs js, Forall wf_fields evs -> Forall (small_fields) evs ->
+  Forall2 (fun kvs j => json_fields Orc f64_of_time f64_of_dur kvs = Some j) evs js ->
+  Forall2 (decodes Orc) (map (enc_event f64_of_time f64_of_dur) evs) js.
+Proof. exact events_decode. Qed.
+
+(* ---- non-vacuity and the fixed defects as theorems about the model ---- *)
+Definition O_none : oracle := mkoracle (fun _ => None) (fun _ => None) (fun _ => None) (fun _ _ => None).
+
+(* ff99b7e: these inputs used to reach make() with a negative / 2 GiB size *)
+Example C17_ex_fixed_negative_length :
+  cbor2json O_none [91; 255; 255; 255; 255; 255; 255; 255; 255]%N = ([], FErr EInvalidLength, 16%N).
+Proof. vm_compute. reflexivity. Qed.
+
+Example C17_ex_fixed_huge_length :
+  cbor2json O_none [90; 127; 255; 255; 255]%N = ([], FErr EEofReadN, 4104%N).
+Proof. vm_compute. reflexivity. Qed.
+
+Example C17_ex_decodes :
+  decodes O_none [191; 97; 97; 1; 97; 98; 159; 245; 57; 1; 243; 255; 255]%N
+                 [123; 34; 97; 34; 58; 49; 44; 34; 98; 34; 58; 91; 116; 114; 117; 101; 44; 45; 53; 48; 48; 93; 125]%N.
+Proof. split; [discriminate|]. exists 30%nat. eexists. vm_compute. reflexivity. Qed.
+
+(* an encoder-model stream, cut inside its second event *)
+Definition ex_tf (s : Z) (n : N) : N := 4742290407621132288%N.
+Definition ex_df (d u : Z) : N := 4607182418800017408%N.
+Definition ex_ev1 : list (list N * cval) :=
+  [([108;101;118;101;108]%N, VP (PString [105;110;102;111]%N)); ([110]%N, VP (PInt (-5)));
+   ([97]%N, VArr [VP (PBool true); VDict [([107]%N, VP PNil)]])].
+Definition ex_ev2 : list (list N * cval) := [([117]%N, VP (PUints [1; 18446744073709551615]%N)); ([104]%N, VP (PHex [171; 205]%N))].
+
+Example C17_ex_encoder_stream :
+  let e1 := enc_event ex_tf ex_df ex_ev1 in
+  let e2 := enc_event ex_tf ex_df ex_ev2 in
+  json_fields O_none ex_tf ex_df ex_ev1 <> None /\ json_fields O_none ex_tf ex_df ex_ev2 <> None /\
+  fst (cbor2json O_none (e1 ++ e2)) =
+    ([123;34;108;101;118;101;108;34;58;34;105;110;102;111;34;44;34;110;34;58;45;53;44;34;97;34;58;91;116;114;117;101;44;
+      123;34;107;34;58;110;117;108;108;125;93;125;10;
+      123;34;117;34;58;91;49;44;49;56;52;52;54;55;52;52;48;55;51;55;48;57;53;53;49;54;49;53;93;44;34;104;34;58;34;97;98;99;100;34;125;10]%N, FOk) /\
+  snd (fst (cbor2json O_none (e1 ++ firstn 5 e2))) = FErr EEofPeek.
+Proof. cbv zeta. repeat split; try (vm_compute; discriminate); vm_compute; reflexivity. Qed.
+
+Print Assumptions C17_total.
+Print Assumptions C17_fuel_sufficient.
+Print Assumptions C17_no_runtime_panic.
+Print Assumptions C17_alloc_linear.
+Print Assumptions C17_decodeIfBinary_returns.
+Print Assumptions C17_decodeObject_no_runtime_panic.
+Print Assumptions C17_extension.
+Print Assumptions C17_stream_decodes.
+Print Assumptions C17_prefix_stability.
+Print Assumptions C17_cut_points.
+Print Assumptions C17_encoder_events_decode.
